@@ -439,18 +439,30 @@ func (m *Manager) startReplica() error {
 		return fmt.Errorf("failed to create replica node: %w", err)
 	}
 
-	// Start replication
-	if err := replica.Start(); err != nil {
-		return fmt.Errorf("failed to start replica: %w", err)
+	// Set read-only mode on the engine if configured. This comes before the
+	// replica is started: its loop applies entries as soon as it runs, and an
+	// entry whose application began on a writable engine is refused as a
+	// client write if the flag changes under it.
+	alreadyReadOnly := false
+	if checker, ok := m.engine.(interface{ IsReadOnly() bool }); ok {
+		alreadyReadOnly = checker.IsReadOnly()
 	}
-
-	// Set read-only mode on the engine if configured
-	if m.config.ForceReadOnly {
+	madeReadOnly := false
+	if m.config.ForceReadOnly && !alreadyReadOnly {
 		if err := m.setEngineReadOnly(true); err != nil {
 			log.Warn("Failed to set engine to read-only mode: %v", err)
 		} else {
+			madeReadOnly = true
 			log.Info("Engine set to read-only mode (replica)")
 		}
+	}
+
+	// Start replication
+	if err := replica.Start(); err != nil {
+		if madeReadOnly {
+			m.setEngineReadOnly(false)
+		}
+		return fmt.Errorf("failed to start replica: %w", err)
 	}
 
 	// Store references
